@@ -121,15 +121,15 @@ func (e *Encoder) writeMap(data interface{}) (int, error) {
 
 	if typ.Kind() == reflect.Map {
 		// -------> untyped map
-		keys := vv.MapKeys()
-		count = len(keys)
-		for i := 0; i < count; i++ {
-			k := keys[i]
-			_, err := e.WriteData(k.Interface())
+		// (the entries are walked, not looked up by key: a NaN key is never found again)
+		it := vv.MapRange()
+		for it.Next() {
+			count++
+			_, err := e.WriteData(it.Key().Interface())
 			if err != nil {
 				return 0, err
 			}
-			_, err = e.WriteData(vv.MapIndex(keys[i]).Interface())
+			_, err = e.WriteData(it.Value().Interface())
 			if err != nil {
 				return 0, err
 			}
